@@ -19,7 +19,8 @@
                          `sympy.expand(form).as_coefficients_dict()` denotes);
         `applyGates`, `expectation…`, `samples…` : `apply_gates`, `expectation`,
                          `expectation_from_samples` of both classes;
-        `buildSpin`, `tfim…` : `_build_spin_model` and the model builders.
+        `buildSpin`, `tfim…`, `oneBody…`, `heis…` : `_build_spin_model` and the model builders
+                         (TFIM, X/Y/Z, Heisenberg and with it XXX / XXZ).
 
   A matrix on n qubits is a function of a row label and a column label (type `DM α` of
   the simulator model); numpy's `kron` is then concatenation of bit ranges, and the
@@ -369,6 +370,37 @@ def oneBodyDense (n : Nat) (m : Nat → Nat → α) : DM α := mSmul (-1) (build
 
 def oneBodyForm (n : Nat) (m : Nat → Nat → α) : PForm α :=
   (List.range n).foldl (fun acc i => .add acc (.smul (-1) (.sym { mat := m, q := i }))) (.const 0)
+
+/-- one Pauli component of the Heisenberg builder: coupling constant, external field, whether
+the symbolic form keeps the field term (`field_strength != 0.0`), and the 2×2 matrix. -/
+structure HComp (α : Type) where
+  J    : α
+  h    : α
+  keep : Bool
+  mat  : Nat → Nat → α
+
+/-- dense `Heisenberg`: for each of X, Y, Z
+`matrix = matrix - J · build(σ, ring)`; `matrix = matrix + h · _OneBodyPauli(σ).matrix`. -/
+def heisDense (n : Nat) (cs : List (HComp α)) : DM α :=
+  cs.foldl (fun M c =>
+    mAdd (mAdd M (mSmul (-c.J) (buildSpin n c.mat (ringCond n)))) (mSmul c.h (oneBodyDense n c.mat))) mZero
+
+/-- `term(q1, q2) = sum(J_σ · σ(q1) · σ(q2))` (python's `sum` starts from 0). -/
+def heisTerm (cs : List (HComp α)) (a b : Nat) : PForm α :=
+  cs.foldl (fun acc c =>
+    .add acc (.smul c.J (.mul (.sym { mat := c.mat, q := a }) (.sym { mat := c.mat, q := b })))) (.const 0)
+
+/-- `sum(h_σ · σ(q) for q in range(n) for σ if h_σ != 0)`. -/
+def heisField (n : Nat) (cs : List (HComp α)) : PForm α :=
+  (List.range n).foldl (fun acc q =>
+    (cs.filter (·.keep)).foldl (fun acc c => .add acc (.smul c.h (.sym { mat := c.mat, q := q }))) acc) (.const 0)
+
+/-- symbolic `Heisenberg` form:
+`-1 * sum(term(i, i+1) for i < n-1) - term(n-1, 0)`, then `form -= field sum`. -/
+def heisForm (n : Nat) (cs : List (HComp α)) : PForm α :=
+  .add (.add (.smul (-1) ((List.range (n - 1)).foldl (fun acc i => .add acc (heisTerm cs i (i + 1))) (.const 0)))
+             (.smul (-1) (heisTerm cs (n - 1) 0)))
+       (.smul (-1) (heisField n cs))
 
 end models
 
